@@ -595,7 +595,7 @@ func genC20(g *Gen, idx int) *Plan {
 		sg.add(refsn.Pkt{Raw: garbage(g)})
 		sg.gap(1, 300)
 	}
-	p.Peers = []PeerPlan{{Name: "p1", Ops: sg.ops}}
+	p.Peers = []PeerPlan{{Name: "p1", Ops: sg.ops, Policy: PeerPolicy{NoWait: true}}}
 	p.Cfg.HorizonMs = sg.t + 2000
 	return p
 }
@@ -670,7 +670,7 @@ func enumC20(tier string, idx int) *Plan {
 		ops = append(ops, PeerOp{AtMs: 10, Pkt: connectPkt("c1", 30, false, true)})
 	}
 	ops = append(ops, PeerOp{AtMs: 600, Pkt: refsn.Pkt{Raw: raw}})
-	p.Peers = []PeerPlan{{Name: "p1", Ops: ops}}
+	p.Peers = []PeerPlan{{Name: "p1", Ops: ops, Policy: PeerPolicy{NoWait: true}}}
 	return p
 }
 
@@ -686,19 +686,41 @@ func genC25(g *Gen, idx int) *Plan {
 		sg := &sessGen{g: g, cid: "c1"}
 		if g.Bool(0.8) {
 			sg.gap(5, 300)
-			sg.add(connectPkt("c1", uint16(g.Range(1, 60)), g.Bool(0.3), true))
+			ka := uint16(g.Range(1, 60))
+			if g.Bool(0.4) {
+				ka = uint16(g.Range(1, 3))
+			}
+			sg.add(connectPkt("c1", ka, g.Bool(0.3), true))
 			sg.gap(100, 900)
 		}
 		n := int(g.Range(3, 25))
+		sleepy := g.Bool(0.3)
 		for i := 0; i < n; i++ {
-			if g.Bool(0.5) {
+			switch {
+			case sleepy && g.Bool(0.15):
+				// short sleeps (longer and shorter than small keep-alives) left early in every way: the
+				// timers they arm fire later, whatever the session does meanwhile
+				sg.add(refsn.Pkt{Type: refsn.DISCONNECT, HasDur: true, Duration: uint16(g.Range(1, 5))})
+				sg.gap(50, 1500)
+				switch g.Intn(4) {
+				case 0:
+					sg.add(connectPkt("c1", uint16(g.Range(1, 4)), false, g.Bool(0.5)))
+				case 1:
+					sg.add(refsn.Pkt{Type: refsn.PINGREQ, Data: []byte("c1")})
+				case 2:
+					sg.add(refsn.Pkt{Type: refsn.DISCONNECT, HasDur: true, Duration: uint16(g.Range(1, 3))})
+				}
+			case g.Bool(0.5):
 				sg.add(preConnectPkt(g, g.Intn(nPreConnect)))
-			} else {
+			default:
 				sg.activeOp(sessOpts{Weird: 0.4})
 			}
 			sg.gap(0, 400)
 		}
-		p.Peers = []PeerPlan{{Name: "p1", Ops: sg.ops, Policy: PeerPolicy{WillTopic: "w", WillMsg: []byte("x")}}}
+		if sleepy {
+			sg.t += 6000 // let every timer armed on the way fire
+		}
+		p.Peers = []PeerPlan{{Name: "p1", Ops: sg.ops, Policy: PeerPolicy{NoWait: true, WillTopic: "w", WillMsg: []byte("x")}}}
 		p.Broker.Injects = g.injects("p1", int(g.Range(0, 8)), 300, sg.t+300, "b")
 		for k := range p.Broker.Injects {
 			p.Broker.Injects[k].ID = uint16(g.Range(1, 12)) // collide with the peer's small ids
